@@ -4,6 +4,7 @@ import H2V.Lemmas.ConnCountsPMono
 -/
 namespace H2V.Lemmas.ConnCountsP
 open H2V H2V.Model H2V.Model.Conn
+variable {ρ : Bool}
 attribute [local irreducible] wrapSubU32 wrapSubUsize
 
 -- ===================================================================== look-ups through the counter primitives
@@ -38,14 +39,14 @@ theorem stream_get?_or (s : Streams) (k : Nat) :
 
 -- ===================================================================== transition_after
 
-theorem unlink_ev (s : Streams) (id : Nat) : Ev s { s with store := s.store.unlink id } := .unlink id
+theorem unlink_ev (s : Streams) (id : Nat) : EvB ρ s { s with store := s.store.unlink id } := .unlink id
 
-theorem decNumStreams_ev (s : Streams) (k : Nat) : Ev s (s.decNumStreams k) := .decNum k
+theorem decNumStreams_ev (s : Streams) (k : Nat) : EvB ρ s (s.decNumStreams k) := .decNum k
 
 /-- `transition_after(stream, is_reset_counted)` for a stream that did not leave
     `pending_reset_expired` in between -/
 theorem transitionAfter_ev (s : Streams) (k : Nat) (b : Bool) (h : b = true → (s.stream k).resetAt = true) :
-    Ev s (s.transitionAfter k b) := by
+    EvB ρ s (s.transitionAfter k b) := by
   unfold Streams.transitionAfter
   have h0 : (b && !(s.stream k).isPendingResetExpiration) = false := by
     cases b with
@@ -58,7 +59,7 @@ theorem transitionAfter_ev (s : Streams) (k : Nat) (b : Bool) (h : b = true → 
         Streams.decNumStreams (if (!(s.stream k).isPendingResetExpiration) = true then { s with store := s.store.unlink (s.stream k).id } else s) k
        else (if (!(s.stream k).isPendingResetExpiration) = true then { s with store := s.store.unlink (s.stream k).id } else s))
       else s) = s1
-  have e1 : Ev s s1 := by
+  have e1 : EvB ρ s s1 := by
     subst hs1
     split
     · split
@@ -95,8 +96,8 @@ theorem transitionAfter_ev (s : Streams) (k : Nat) (b : Bool) (h : b = true → 
   · exact .refl _
 
 /-- `counts.transition(stream, f)` -/
-theorem transition_ev {α : Type} (s : Streams) (k : Nat) (f : Streams → Streams × α) (hf : ∀ s, Ev s (f s).1) :
-    Ev s (s.transition k f).1 := by
+theorem transition_ev {α : Type} (s : Streams) (k : Nat) (f : Streams → Streams × α) (hf : ∀ s, EvB ρ s (f s).1) :
+    EvB ρ s (s.transition k f).1 := by
   have : (s.transition k f).1 = (f s).1.transitionAfter k (s.stream k).isPendingResetExpiration := by
     unfold Streams.transition; rfl
   rw [this]
@@ -104,8 +105,8 @@ theorem transition_ev {α : Type} (s : Streams) (k : Nat) (f : Streams → Strea
 
 -- ===================================================================== Store::try_for_each
 
-theorem tryForEach_ev (f : Streams → Nat → Streams × Option PErr) (hf : ∀ s k, Ev s (f s k).1) :
-    ∀ (fuel i len : Nat) (s : Streams), Ev s (Streams.tryForEach f fuel i len s).1 := by
+theorem tryForEach_ev (f : Streams → Nat → Streams × Option PErr) (hf : ∀ s k, EvB ρ s (f s k).1) :
+    ∀ (fuel i len : Nat) (s : Streams), EvB ρ s (Streams.tryForEach f fuel i len s).1 := by
   intro fuel
   induction fuel with
   | zero => intro i len s; exact .refl _
@@ -127,14 +128,14 @@ theorem tryForEach_ev (f : Streams → Nat → Streams × Option PErr) (hf : ∀
           · exact .trans this (ih _ _ _)
     · exact .refl _
 
-theorem storeTryForEach_ev (s : Streams) (f : Streams → Nat → Streams × Option PErr) (hf : ∀ s k, Ev s (f s k).1) :
-    Ev s (s.storeTryForEach f).1 := tryForEach_ev f hf _ _ _ s
+theorem storeTryForEach_ev (s : Streams) (f : Streams → Nat → Streams × Option PErr) (hf : ∀ s k, EvB ρ s (f s k).1) :
+    EvB ρ s (s.storeTryForEach f).1 := tryForEach_ev f hf _ _ _ s
 
-theorem storeForEach_ev (s : Streams) (f : Streams → Nat → Streams) (hf : ∀ s k, Ev s (f s k)) :
-    Ev s (s.storeForEach f) := storeTryForEach_ev s _ (fun s k => hf s k)
+theorem storeForEach_ev (s : Streams) (f : Streams → Nat → Streams) (hf : ∀ s k, EvB ρ s (f s k)) :
+    EvB ρ s (s.storeForEach f) := storeTryForEach_ev s _ (fun s k => hf s k)
 
-theorem tryForEachAcc_ev (f : Nat → Streams → Nat → Streams × Nat × Option PErr) (hf : ∀ a s k, Ev s (f a s k).1) :
-    ∀ (fuel i len acc : Nat) (s : Streams), Ev s (Streams.tryForEachAcc f fuel i len acc s).1 := by
+theorem tryForEachAcc_ev (f : Nat → Streams → Nat → Streams × Nat × Option PErr) (hf : ∀ a s k, EvB ρ s (f a s k).1) :
+    ∀ (fuel i len acc : Nat) (s : Streams), EvB ρ s (Streams.tryForEachAcc f fuel i len acc s).1 := by
   intro fuel
   induction fuel with
   | zero => intro i len acc s; exact .refl _
